@@ -16,7 +16,10 @@ combination of sizes:
   reports of all messages, concatenated, are the reports of the selected attributes (not filtered
   by the subscription, not held back by a data-version filter), each once, in request order, a list
   whole or as "empty list + one append per element", an error status standing for a report that
-  fits no message — and only for such a report (`Justified`); the event reports are the status
+  fits no message — and only for such a report, per REPORT (`Justified`: a scalar / the start of a
+  streamed list is failed iff its report fits no empty message; a streamed list is cut at index `k`
+  iff the start and the elements before `k` fit and the read of index `k` — element `k`, or the
+  end-of-list header — does not: `justified_unique`, `status_place_determined`); the event reports are the status
   reports of the invalid paths and then the events of the buffer in the cursor's range that pass
   the event filters, each once, in buffer order — for every event buffer that is a snapshot of the
   event queue of `im/events.rs` after any history of pushes / evictions / promotions / failed pushes
@@ -121,7 +124,7 @@ theorem ascending_of_queue {r : Req} (h : FromQueue r) : Ascending r := by
 
 /-- what a well-behaved answer `cs` to `r` looks like -/
 structure Good (c : Cfg) (r : Req) (cs : List ChunkOut) : Prop where
-  /-- every selected attribute exactly once, in order; an error status only for what fits no message -/
+  /-- every selected attribute exactly once, in order; an error status exactly for the report that fits no message -/
   attrs : ∃ outs, AllJustified c (selOf r.attrs) outs ∧ cs.flatMap (·.pieces) = allPieces (selOf r.attrs) outs
   /-- every selected event exactly once, in order -/
   events : cs.flatMap (·.events) = eventsOf r
@@ -266,10 +269,20 @@ theorem complete_of_fits {c : Cfg} {its : List Item} {outs : List Out} (hj : All
     · cases hc : o'.complete with
       | true => rfl
       | false =>
-        have := j hc
+        have := j.weak hc
         rw [hf it (by simp)] at this
         cases this
     · exact ih (fun x hx => hf x (by simp [hx])) o' ho'
+
+/-- the place of an error status is determined by the sizes: two justified outcomes of an item that
+both use a status are equal (`justified_unique`); an item whose reports all fit is never failed / cut
+(`Justified.complete_of_fits`); a list that can be streamed completely is never failed / cut
+(`justified_split_excl`).  What stays open by design is only the whole / streamed choice, which
+depends on the space left in the message the list starts in. -/
+theorem status_place_determined {c : Cfg} {it : Item} {o o2 : Out} (h : Justified c it o) (h2 : Justified c it o2) :
+    (o.complete = false → o2.complete = false → o = o2) ∧ (it.fits c = true → o.complete = true) ∧
+    (o = .split → o2.complete = true) :=
+  ⟨justified_unique h h2, h.complete_of_fits, fun e => justified_split_excl (e ▸ h) h2⟩
 
 /-! ## reassembly: lists come back complete and in order -/
 
@@ -686,6 +699,24 @@ example : chunks readCfg [.scalar 0 500 30, .scalar 1 648 30] =
          { pieces := [.scalar 1 648], size := 658, more := false }] := by rfl
 
 /-! ## a value that fits no message -/
+
+/-- the list of the audit (`docs/audit/C14.md`, concern 2): only element 2 is longer than a message -/
+def auditList : Item := .list 7 5000 10 [10, 10, 5000, 10] 5 30 32
+
+/-- **an error status stands exactly for the report that fits no message**: with the per-report
+`Justified` the only justified outcome of `auditList` is "cut at index 2" (what the model answers);
+replacing the whole list by a status, cutting it at index 0 or after its end, streaming it completely
+or sending it whole — all of which the former per-item `Justified` accepted or could not tell
+apart — are excluded -/
+example : Justified readCfg auditList (.cut 2) ∧ ¬ Justified readCfg auditList .failed ∧
+    ¬ Justified readCfg auditList (.cut 0) ∧ ¬ Justified readCfg auditList (.cut 4) ∧
+    ¬ Justified readCfg auditList .split ∧ ¬ Justified readCfg auditList .whole := by decide
+
+set_option maxRecDepth 32000 in
+/-- what the model answers for it: the two elements before the oversize one, then the status -/
+example : (chunks readCfg [auditList]).toOption.map (·.flatMap (·.pieces)) =
+    some [.listStart 7 10, .listElem 7 0 10, .listElem 7 1 10, .status 7 32] := by rfl
+
 
 set_option maxRecDepth 8000 in
 /-- a value that fits no message: the repaired code answers the attribute with an error status (the
